@@ -57,6 +57,11 @@ MUTS = [
  ('M40 to_dict nodes sorted', "comps = [comp for comp in self._g.nodes]", "comps = sorted(self._g.nodes, key=lambda c: getattr(c, 'name', ''))"),
  ('M41 Compartment.subs drops bioavailability', "bioavailability=self._bioavailability.subs(substitutions),", "bioavailability=self._bioavailability,"),
  ('M42 central lookup name', 'central = self.find_compartment("CENTRAL")', 'central = self.find_compartment("CENTRAL1")'),
+ ('M43 to_cs: accumulated flow dropped', "new_flow = term / comp_func + current_flow", "new_flow = term / comp_func"),
+ ('M44 to_cs: flow direction swapped', "cb.add_flow(from_comp, to_comp, term / comp_func)", "cb.add_flow(to_comp, from_comp, term / comp_func)"),
+ ('M45 to_cs: input not set', "                cb.set_input(from_comp, i)", "                pass"),
+ ('M46 to_cs: matched term not removed from the source equation', "neweq.lhs, sympy.expand(xrhs + term)  # pyright: ignore", "neweq.lhs, sympy.expand(xrhs)  # pyright: ignore"),
+ ('M47 subs relabels into a new graph (node order kept)', "        nx.relabel_nodes(cb._g, mapping, copy=False)\n        return CompartmentalSystem(cb)", "        cb._g = nx.relabel_nodes(cb._g, mapping, copy=True)\n        return CompartmentalSystem(cb)"),
 ]
 
 
